@@ -13,6 +13,9 @@ pub struct H {
     next: u64,
     /// set by a driver while it performs an honest exchange; logged as "hon"
     pub honest: bool,
+    /// deterministic mode (C19): every draw of the library is injected from this generator, so that
+    /// two builds of the crate see identical randomness
+    pub det: Option<rand::rngs::StdRng>,
 }
 
 pub fn ns(s: &str) -> NormalizedString {
@@ -27,7 +30,7 @@ pub fn ns(s: &str) -> NormalizedString {
 
 impl H {
     pub fn new(tr: Tr) -> H {
-        H { tr, next: 1, honest: false }
+        H { tr, next: 1, honest: false, det: None }
     }
     pub fn oid(&mut self) -> u64 {
         self.next += 1;
@@ -37,6 +40,25 @@ impl H {
         clear_hooks();
         self.tr.reset(what);
     }
+    pub fn with_det(mut self, args: &Args) -> H {
+        if args.extra.iter().any(|x| x == "det") {
+            use rand::SeedableRng;
+            self.det = Some(rand::rngs::StdRng::seed_from_u64(args.seed ^ 0xD37));
+        }
+        self
+    }
+    /// in deterministic mode: queue an injection for a draw the caller did not pin
+    fn det_inject(&mut self, site: &str, len: usize, pinned: bool) {
+        if pinned {
+            return;
+        }
+        if let Some(r) = self.det.as_mut() {
+            use rand::RngCore;
+            let mut v = vec![0u8; len];
+            r.fill_bytes(&mut v);
+            inject(site, &v);
+        }
+    }
 
     pub fn register(&mut self, user: &str, pass: &str, salt: Option<&[u8]>) -> Option<(u64, SrpVerifier)> {
         let o = self.oid();
@@ -45,6 +67,7 @@ impl H {
         if let Some(s) = salt {
             inject("Salt", s);
         }
+        self.det_inject("Salt", 32, salt.is_some());
         let r = guard(|| SrpVerifier::from_username_and_password(u, p));
         let d = draws();
         match r {
@@ -85,6 +108,7 @@ impl H {
         if let Some(k) = bkey {
             inject("PrivateKey", k);
         }
+        self.det_inject("PrivateKey", 32, bkey.is_some());
         let consumed = o;
         let r = guard(move || v.into_proof());
         let d = draws();
@@ -137,6 +161,7 @@ impl H {
         if let Some(k) = akey {
             inject("PrivateKey", k);
         }
+        self.det_inject("PrivateKey", 32, akey.is_some());
         let bb = *bpub.as_le_bytes();
         let r = guard(move || SrpClientChallenge::new(u, p, g, n, bpub, salt));
         let d = draws();
@@ -160,6 +185,7 @@ impl H {
     pub fn into_server(&mut self, o: u64, p: SrpProof, a: PublicKey, m1: [u8; 20]) -> Option<(u64, SrpServer, [u8; 20])> {
         let o2 = self.oid();
         clear_hooks();
+        self.det_inject("ReconnectData", 16, false);
         let ab = *a.as_le_bytes();
         let consumed = o;
         let r = guard(move || p.into_server(a, m1));
@@ -221,6 +247,7 @@ impl H {
         if let Some(k) = inject_cchal {
             inject("ReconnectData", k);
         }
+        self.det_inject("ReconnectData", 16, inject_cchal.is_some());
         let r = guard(|| c.calculate_reconnect_values(schal));
         let d = draws();
         let mut e = json!({"ev": "ReconnectValues", "o": o, "schal": b(&schal), "draws": d});
@@ -240,6 +267,7 @@ impl H {
 
     pub fn verify_reconnect(&mut self, o: u64, s: &mut SrpServer, cdata: [u8; 16], proof: [u8; 20], note: &str) -> Option<bool> {
         clear_hooks();
+        self.det_inject("ReconnectRefresh", 16, false);
         let before = *s.reconnect_challenge_data();
         let r = guard(|| s.verify_reconnection_attempt(cdata, proof));
         let d = draws();
